@@ -209,6 +209,8 @@ def check_api(col, pp, cfg, subs, scenario, a, b, extra):
             return pp.Container.create_solution(R[1], R[0], 'x', concentration=q, total_quantity=extra['total'])
         if scenario == 'solution-total':
             return pp.Container.create_solution(R[1], R[0], 'x', concentration=extra['conc'], total_quantity=q)
+        if scenario == 'solution-conc2':
+            return pp.Container.create_solution([R[1], R[2]], R[0], 'x', concentration=list(q), total_quantity=extra['total'])
         if scenario == 'dilute':
             c = pp.Container.create_solution(R[1], R[0], 'x', concentration=extra['conc'], total_quantity=extra['total'])
             return c.dilute(R[1], q, R[0])
@@ -234,6 +236,16 @@ def check_api(col, pp, cfg, subs, scenario, a, b, extra):
         if abs(got - want) > 2.02 * cfg.grain * cfg.mol_mult + 1e-9 * want:
             col.report(f"api/content/amount-is-not-what-the-string-denotes/{fam}",
                        {'a': a, 'got_mol': got, 'expected_mol': want}, case)
+    elif ka == 'ok' and scenario == 'solution-conc2':
+        # each element of the list means what it says for its own solute (precision is C05's business: wide tolerance)
+        base = world.ref.base_contents(oa)
+        for i, (xs, num, den) in enumerate(extra['denotes2']):
+            want = float(Fraction(xs))
+            got = world.ref.conc(base, subs[1 + i].name, num, den)
+            if abs(got - want) > 1e-5 * want:
+                col.report(f"api/solution-conc2/concentration-is-not-what-the-string-denotes/{num}-per-{den}",
+                           {'a': a, 'solute': subs[1 + i].name, 'got': got, 'expected': want}, case)
+                break
     elif ka == 'ok' and scenario == 'transfer' and 'denotes' in extra:
         # the aliquot that arrives measures what the string denotes (exact split and rounding are C02's business:
         # the tolerance here is wide, a misread prefix is a factor of 10 at least)
@@ -242,7 +254,8 @@ def check_api(col, pp, cfg, subs, scenario, a, b, extra):
         if abs(got - float(frac)) > 1e-6 * float(frac) + 8 * cfg.grain * max(cfg.mol_mult, cfg.vol_mult) * 60:
             col.report(f"api/transfer/aliquot-is-not-what-the-string-denotes/{fam}",
                        {'a': a, 'got': got, 'expected': float(frac), 'unit': fam}, case)
-    col.nontrivial_key(f"api|{scenario}|{a.split(' ', 1)[1]}|{b.split(' ', 1)[1]}")
+    ua, ub = (' + '.join(x.split(' ', 1)[1] for x in v) if isinstance(v, list) else v.split(' ', 1)[1] for v in (a, b))
+    col.nontrivial_key(f"api|{scenario}|{ua}|{ub}")
     col.sample({'scenario': scenario, 'a': a, 'b': b})
 
 
@@ -447,13 +460,14 @@ def run(col):
     core.run_property(col, t_family, budget(150, 3000, col.tier), tag='family')
 
     # (c) API level
-    subs_fixed = [fill_defaults(Sub('liquid', 'H2O', 18.0153, 1.0), cfg), fill_defaults(Sub('solid', 'NaCl', 58.4428), cfg)]
+    subs_fixed = [fill_defaults(Sub('liquid', 'H2O', 18.0153, 1.0), cfg), fill_defaults(Sub('solid', 'NaCl', 58.4428), cfg),
+                  fill_defaults(Sub('solid', 'KCl', 74.5513), cfg)]
 
     def t_api():
         @given(st.data())
         def test(data):
             scenario = data.draw(st.sampled_from(['capacity', 'plate-capacity', 'content', 'transfer', 'fill_to',
-                                                  'solution-conc', 'solution-total', 'dilute']))
+                                                  'solution-conc', 'solution-conc2', 'solution-total', 'dilute']))
             m = data.draw(st.integers(1, 9999))
             extra = {'content': '2 mL', 'content2': '50 mg', 'aliquot': '10 uL', 'total': '10 mL', 'conc': '0.5 M', 'sub': 0}
             if scenario in ('capacity', 'plate-capacity'):
@@ -474,6 +488,20 @@ def run(col):
                 fam = data.draw(st.sampled_from(['L', 'g', 'mol']))
                 frac = Fraction(m + 100, 10 ** 5) if fam != 'mol' else Fraction(m + 100, 10 ** 4)
                 a, b = two_spellings(data.draw, frac, fam)
+            elif scenario == 'solution-conc2':
+                # one concentration per solute, each in its own spelling: every element is read on its own
+                a, b = [], []
+                for _ in range(2):
+                    num = data.draw(st.sampled_from(['mol', 'g']))
+                    den = data.draw(st.sampled_from(['L', 'g']))
+                    x = {('mol', 'L'): Fraction(m, 10 ** 4), ('mol', 'g'): Fraction(m, 10 ** 7),
+                         ('g', 'L'): Fraction(m, 10 ** 2), ('g', 'g'): Fraction(m, 10 ** 5)}[(num, den)] / 4
+                    if x * 10 ** cfg.P != int(x * 10 ** cfg.P):
+                        x = Fraction(int(x * 10 ** cfg.P) or 1, 10 ** cfg.P)
+                    fam_sp = family(cfg, x, num, den, data.draw)
+                    a.append(fam_sp[0])
+                    b.append(fam_sp[-1])
+                    extra.setdefault('denotes2', []).append([str(x), num, den])
             else:
                 num = data.draw(st.sampled_from(['mol', 'g']))
                 den = data.draw(st.sampled_from(['L', 'g', 'mol']))
